@@ -81,6 +81,70 @@ func parseFiltered(fs *token.FileSet, dir string, skip map[string]bool) []*ast.F
 
 // callCones returns, for every function of the two packages, the sorted list of functions in its cone (itself excluded),
 // or nil with an error text when the packages do not type-check
+// loopVarCaptures: `go func() {...}()` literals whose body mentions a variable declared by an enclosing for / range header.  The
+// module says `go 1.13`: such a variable is ONE variable for all iterations, so the goroutine reads it while the loop goes on
+// assigning it -- a data race, and usually the wrong item.  (Passing the value as an argument, or `x := x`, is the idiom.)
+var loopVarCaptures []string
+
+func collectLoopVarCaptures(n string, x *ast.FuncDecl, info *types.Info) {
+	type loopv struct{ from, to token.Pos }
+	var walk func(nd ast.Node, loopVars map[types.Object]bool)
+	walk = func(nd ast.Node, loopVars map[types.Object]bool) {
+		ast.Inspect(nd, func(c ast.Node) bool {
+			switch st := c.(type) {
+			case *ast.RangeStmt:
+				inner := map[types.Object]bool{}
+				for k := range loopVars {
+					inner[k] = true
+				}
+				if st.Tok == token.DEFINE {
+					for _, e := range []ast.Expr{st.Key, st.Value} {
+						if id, ok := e.(*ast.Ident); ok && id.Name != "_" {
+							if o := info.Defs[id]; o != nil {
+								inner[o] = true
+							}
+						}
+					}
+				}
+				walk(st.Body, inner)
+				return false
+			case *ast.ForStmt:
+				inner := map[types.Object]bool{}
+				for k := range loopVars {
+					inner[k] = true
+				}
+				if as, ok := st.Init.(*ast.AssignStmt); ok && as.Tok == token.DEFINE {
+					for _, e := range as.Lhs {
+						if id, ok := e.(*ast.Ident); ok {
+							if o := info.Defs[id]; o != nil {
+								inner[o] = true
+							}
+						}
+					}
+				}
+				walk(st.Body, inner)
+				return false
+			case *ast.GoStmt:
+				if fl, ok := st.Call.Fun.(*ast.FuncLit); ok && len(loopVars) > 0 {
+					seen := map[string]bool{}
+					ast.Inspect(fl.Body, func(b ast.Node) bool {
+						if id, ok := b.(*ast.Ident); ok {
+							if o := info.Uses[id]; o != nil && loopVars[o] && !seen[id.Name] {
+								seen[id.Name] = true
+								loopVarCaptures = append(loopVarCaptures, "("+q(n)+", "+q(id.Name)+")")
+							}
+						}
+						return true
+					})
+				}
+				return true
+			}
+			return true
+		})
+	}
+	walk(x.Body, map[types.Object]bool{})
+}
+
 func callCones(root string) (map[string][]string, string) {
 	fs := token.NewFileSet()
 	std := importer.ForCompiler(fs, "source", nil)
@@ -124,6 +188,11 @@ func callCones(root string) (map[string][]string, string) {
 			}
 		}
 	}
+	loopVarCaptures = []string{}
+	for n, x := range decls {
+		collectLoopVarCaptures(n, x, info)
+	}
+	sort.Strings(loopVarCaptures)
 	edges := map[string]map[string]bool{}
 	for n, x := range decls {
 		out := map[string]bool{}
